@@ -183,11 +183,8 @@ func ZeroShare(s Script) bool {
 // division of the vacant handlers among the priorities below their share leaves one of
 // them without a handler, so the round waits for a further release (known finding F5).
 func waitState(s Script, sn Snap) bool {
-	share := Share(s)
-	var ps []uint
-	for _, in := range s.Ins {
-		ps = append(ps, in.P)
-	}
+	share := shareAt(s, sn)
+	ps := append([]uint(nil), sn.Configured...)
 	sort.Slice(ps, func(i, j int) bool { return ps[i] > ps[j] })
 	over := false
 	var unc []uint
@@ -211,6 +208,15 @@ func waitState(s Script, sn Snap) bool {
 		}
 	}
 	return false
+}
+
+// shareAt : the strategic distribution for the priorities configured at the snapshot.
+func shareAt(s Script, sn Snap) map[uint]uint {
+	ps := append([]uint(nil), sn.Configured...)
+	sort.Slice(ps, func(i, j int) bool { return ps[i] > ps[j] })
+	m := map[uint]uint{}
+	baseDivider(s.Div)(ps, s.H, m)
+	return m
 }
 
 // CheckC06 : progress. The second result names the known finding the failure belongs to ("" = none).
@@ -246,7 +252,7 @@ func CheckC06(s Script, tr Trace) (error, string) {
 				if known == "" && waitState(s, sn) {
 					known = "F5"
 				}
-				return fmt.Errorf("quiescent after op #%d: priority %d alone has data (%d items waiting) and alone is in flight, but holds only %d of %d handlers (shares %v)", sn.Op, only, sn.Pending[only], sn.Total, s.H, Share(s)), known
+				return fmt.Errorf("quiescent after op #%d: priority %d alone has data (%d items waiting) and alone is in flight, but holds only %d of %d handlers (shares %v)", sn.Op, only, sn.Pending[only], sn.Total, s.H, shareAt(s, sn)), known
 			}
 		}
 	}
@@ -261,6 +267,18 @@ func CheckC06(s Script, tr Trace) (error, string) {
 	}
 	if tr.Deadlock != "" {
 		return fmt.Errorf("run wedged: %s", firstLine(tr.Deadlock)), zero
+	}
+	// "every item written to any input is eventually delivered": at normal termination nothing
+	// written to a registered, closed input may be left behind
+	if tr.Terminated {
+		for _, st := range tr.InStat {
+			if st.Removed || st.Replaced || st.Unregistered || !st.Closed {
+				continue
+			}
+			if st.Delivered != st.Enq {
+				return fmt.Errorf("the discipline terminated although %d of the %d items written to the input of priority %d (channel generation %d) were never delivered", st.Enq-st.Delivered, st.Enq, st.P, st.Gen), zero
+			}
+		}
 	}
 	return nil, ""
 }
